@@ -1,3 +1,5 @@
 -- Root of the `SplinkVerif` library: models, lemmas, property theorems.
 import SplinkVerif.Model.Base
 import SplinkVerif.Model.CC
+import SplinkVerif.Model.MultiThreshold
+import SplinkVerif.Model.Blocking
